@@ -25,6 +25,16 @@
 #define C3 0
 #endif
 #define NTOT (C1 + C2 + C3)
+/* FLUSHAT: index (0 or 1) of the chunk fed with flush = FLUSH1; the flush point then lies after FL_C1 input bytes */
+#ifndef FLUSHAT
+#define FLUSHAT 0
+#endif
+/* FLUSH3: flush mode of the third chunk (memory-safety queries only: the stream is then not decoded by the oracle) */
+#ifndef FLUSH3
+#define FLUSH3 0
+#endif
+#define FL_C1 (FLUSHAT == 1 ? C1 + C2 : C1)
+#define FL_REST (NTOT - FL_C1)
 #ifndef FLUSH1
 #define FLUSH1 0
 #endif
@@ -176,7 +186,7 @@ harness(void)
                         chunk[i] = I.data[off + i];
                 s->next_in = chunk;
                 s->avail_in = len;
-                s->flush = (c == 0) ? FLUSH1 : NO_FLUSH;
+                s->flush = (c == FLUSHAT) ? FLUSH1 : ((c == 2) ? FLUSH3 : NO_FLUSH);
                 s->end_of_stream = (last && EOSMODE == 0) ? 1 : 0;
                 /* feed until consumed; a flush request is repeated until it has completed (state back at a block
                  * boundary with output space left), as the documentation describes */
@@ -191,7 +201,7 @@ harness(void)
                  * flush flag must be dropped here: repeating the call with the flag still set until
                  * "avail_out > 0 or state == ZSTATE_NEW_HDR" (igzip_lib.h) never terminates for output chunks of 2, 3, 4
                  * or 6 bytes -- each draining call starts another empty block + marker (repro_flush_livelock.c; reported). */
-                if (c == 0 && FLUSH1 != NO_FLUSH && s->avail_in == 0 && s->avail_out > 0) {
+                if (c == FLUSHAT && FLUSH1 != NO_FLUSH && s->avail_in == 0 && s->avail_out > 0) {
                         /* C14's premise: the flushing call returned with all input consumed and output space left */
                         flush_seen = 1;
                         flush_point = full_len;
@@ -218,6 +228,10 @@ harness(void)
                 one_call();
         }
         VASSERT(s->total_in == NTOT && s->total_out == full_len, "totals equal the bytes fed and collected");
+#if FLUSH3 != 0
+        VREACHED(); /* per-call assertions (one_call) only: bounds, counters, history invariants */
+        return;
+#endif
 #if defined(REPLAY) && defined(DFL_DEBUG)
         printf("calls=%d out:", calls);
         for (uint32_t i = 0; i < full_len; i++)
@@ -252,11 +266,11 @@ harness(void)
         size_t pos = 0;
 #if FLUSH1 != 0
         script[0].btype = 1;
-        script[0].nlit = C1;
+        script[0].nlit = FL_C1;
         script[1].btype = 0;
         script[1].nlit = 0;
         dfl_guided_decode(body, body_len, 0, script, 2, I.data, toklens, sizeof(toklens) - 1, 0, &g);
-        VASSERT(g.out_len == C1, "blocks up to the flush marker carry chunk 1");
+        VASSERT(g.out_len == FL_C1, "blocks up to the flush marker carry chunk 1");
         pos = g.bit_pos;
         for (int k = 0; k < 2; k++) {
                 /* FIXED(0) = BFINAL 0, BTYPE 01, EOB 0000000: bytes 0x02, then xxx00000 with the STORED header 000 */
@@ -270,9 +284,9 @@ harness(void)
                         break;
         }
         script[2].btype = 1;
-        script[2].nlit = C2 + C3;
-        dfl_guided_decode(body, body_len, pos, script + 2, 1, I.data + C1, toklens + C1, (int) (sizeof(toklens) - 1) - C1, 1, &g);
-        VASSERT(g.out_len == C2 + C3, "blocks after the flush carry the rest of the input");
+        script[2].nlit = FL_REST;
+        dfl_guided_decode(body, body_len, pos, script + 2, 1, I.data + FL_C1, toklens + FL_C1, (int) (sizeof(toklens) - 1) - FL_C1, 1, &g);
+        VASSERT(g.out_len == FL_REST, "blocks after the flush carry the rest of the input");
 #else
         script[0].btype = 1;
         script[0].nlit = NTOT;
@@ -298,9 +312,9 @@ harness(void)
                 struct dfl_guided gp;
                 size_t plen = (size_t) flush_point - hl;
                 script[0].btype = 1;
-                script[0].nlit = C1;
+                script[0].nlit = FL_C1;
                 dfl_guided_decode(body, plen, 0, script, 2, I.data, toklens, sizeof(toklens) - 1, 0, &gp);
-                VASSERT(gp.out_len == C1 && !gp.saw_final, "prefix decodes to segment 1, no BFINAL");
+                VASSERT(gp.out_len == FL_C1 && !gp.saw_final, "prefix decodes to segment 1, no BFINAL");
                 size_t ppos = gp.bit_pos;
                 for (int k = 0; k < 2; k++) {
                         if (ppos < 8 * plen) {
@@ -324,8 +338,8 @@ harness(void)
                         } else
                                 break;
                 }
-                dfl_guided_decode(sfx, slen, spos, script + 2, 1, I.data + C1, toklens + C1, (int) (sizeof(toklens) - 1) - C1, 1, &gp);
-                VASSERT(gp.out_len == C2 + C3 && gp.saw_final, "suffix after a full flush decodes on its own to segment 2");
+                dfl_guided_decode(sfx, slen, spos, script + 2, 1, I.data + FL_C1, toklens + FL_C1, (int) (sizeof(toklens) - 1) - FL_C1, 1, &gp);
+                VASSERT(gp.out_len == FL_REST && gp.saw_final, "suffix after a full flush decodes on its own to segment 2");
 #endif
         }
 #endif
